@@ -48,7 +48,9 @@ class Gen:
         if c < 5:
             return self.vatom(env)
         if c == 5:
-            return ["sl2", rs.choice(["d", "u"]), rs.choice([0, 1, 2])]
+            # (also 2-bit slices of a value hoisted with cohdl.always: several equally typed views of one such value at
+            # different positions)
+            return ["sl2", rs.choice(["d", "u"] + env.get("atemps", []) * 2), rs.choice([0, 1, 2])]
         if c < 9:
             op = rs.choice(["add", "sub", "and", "or", "xor"])
             # integer literals only as the right operand of + / - (bitwise operators do not take ints)
@@ -363,6 +365,7 @@ class Gen:
                     nm = f"t{self.nt}"
                     always_vals.append([nm, self.vexprh(aenv, 1)])
                     env["temps"].append(nm)
+                    env.setdefault("atemps", []).append(nm)
             if kind == "comb":
                 # unclocked sequential context: every target gets a default assignment first (no latch)
                 # (and the context reads at least one signal: an unclocked context that reads nothing is emitted as
@@ -385,6 +388,11 @@ class Gen:
                             body.append(["asg", ["sig", o], ["bv", self.bexpr(env)], rs.below(2)])
                 else:
                     body += self.block(env, 0, budget)
+                    vec_owned = [n for n in env["owns"] if n in VEC_OUT + VEC_SIG]
+                    if env.get("atemps") and vec_owned and rs.below(2):
+                        # two equally typed views of ONE hoisted value at different positions
+                        nm = env["atemps"][0]
+                        body.append(["asg", ["sig", rs.choice(vec_owned)], ["add", ["sl2", nm, 0], ["sl2", nm, 2]], 0])
             prog["ctxs"].append({"kind": kind, "name": c["name"], "owns": c["owns"], "body": body, "always": always, "always_vals": always_vals, "has_vars": has_vars})
         # wrapper options of the clocked contexts: a reset (never active in this workload: reset behaviour is C04's
         # subject, but the std wrapper takes another code path with one) and a run-time step condition (input `en`):
